@@ -619,6 +619,7 @@ class ControllerRun:
         self.stack = RecordingStack()
         self.ctrl.network_stack = self.stack
         self.gens: Dict[int, Any] = {}
+        self.stopping: Dict[int, Any] = {}     # stops in progress: app -> {"gen": handler generator, "um": unit module when the stop began}
         self.zombies: Dict[int, Any] = {}      # subroutines of applications that were stopped while suspended inside an instruction
         self.progname: Dict[int, str] = {}
         self.subid: Dict[int, int] = {}
@@ -650,6 +651,39 @@ class ControllerRun:
         for _ in self._send(_M.StopAppMessage(app_id=a)):
             pass
         self.gens.pop(a, None)
+
+    def stop_begin(self, a):
+        """the stop message is handled up to the first point where the handler yields (the reset of the first physical
+        qubit it gives back): 'suspended', or 'finished' if it never yielded"""
+        um = list(self.ex._qubit_unit_modules.get(a, []))
+        g = self._send(_M.StopAppMessage(app_id=a))
+        self.ex.log_clear = True
+        mark = len(self.ex.gate_log)
+        try:
+            next(g)
+        except StopIteration:
+            self.gens.pop(a, None)
+            return "finished"
+        self.stopping[a] = {"gen": g, "um": um}
+        self._given_back(a, mark)
+        return "suspended"
+
+    def _given_back(self, a, mark):
+        # the qubits the stop has handed to the backend for a reset are no longer the application's
+        for g_ in self.ex.gate_log[mark:]:
+            if g_[0] == "clear":
+                self.stopping[a]["um"] = [None if p == g_[3][0] else p for p in self.stopping[a]["um"]]
+
+    def stop_step(self, a):
+        mark = len(self.ex.gate_log)
+        try:
+            next(self.stopping[a]["gen"])
+        except StopIteration:
+            del self.stopping[a]
+            self.gens.pop(a, None)
+            return "finished"
+        self._given_back(a, mark)
+        return "suspended"
 
     def begin(self, a, p):
         sub = Subroutine(instructions=[self._mk(i) for i in ctrl_lib(a)[p]], app_id=a, netqasm_version=(0, 0))
@@ -723,9 +757,26 @@ class ControllerRun:
 
     def project(self):
         ex = self.ex
-        apps = sorted(self.ctrl._active_app_ids)
+        apps = sorted(set(self.ctrl._active_app_ids) | set(self.stopping))
         out_apps = []
         for a in (0, 1, 2):
+            if a in self.stopping:
+                # a stop in progress: the controller has forgotten the id and the unit module already; what the application
+                # still holds are the qubits of its unit module (as it was when the stop began) not yet handed back for a reset
+                if a not in ex._registers or a not in ex._shared_memories or a not in ex._app_arrays:
+                    out_apps.append({"broken": True})
+                    continue
+                regs, sh = regfile(ex._registers[a]), ex._shared_memories[a]
+                shregs = regfile(sh._registers)
+                arrs, sharrs = ex._app_arrays[a]._arrays, sh._arrays._arrays
+                out_apps.append({
+                    "regs": [opt(regs.get(r)) for r in CTRL_REGSET], "shregs": [opt(shregs.get(r)) for r in CTRL_REGSET],
+                    "arrs": [{"ex": x in arrs, "v": [opt(e) for e in arrs.get(x, [])]} for x in range(4)],
+                    "sharrs": [{"ex": x in sharrs, "v": [opt(e) for e in sharrs.get(x, [])]} for x in range(4)],
+                    "um": [(-1 if p is None else p) for p in self.stopping[a]["um"]],
+                    "active": True, "pc": 0, "req": len(ex._epr_create_requests.get((1, a), [])) > 0,
+                })
+                continue
             if a not in apps:
                 # state that survives for an unregistered application is a defect: expose it
                 leftovers = [n for n, d in (("registers", ex._registers), ("arrays", ex._app_arrays), ("shared", ex._shared_memories),
@@ -755,12 +806,15 @@ class ControllerRun:
                 "pend": [[r.purpose_id, r.logical_qubit_id] for r in ex._pending_epr_responses]}
 
     # ---- which actions does the specification allow here (mirrors Controller.tla's guards) ----
-    def candidates(self, app_ids, um_sizes):
+    def candidates(self, app_ids, um_sizes, split_stop=False):
         ex = self.ex
         apps = set(self.ctrl._active_app_ids)
         acts = []
         pend_apps = {r.purpose_id for r in ex._pending_epr_responses}
         for a in app_ids:
+            if a in self.stopping:
+                acts.append(("stopstep", a))
+                continue
             if a in self.zombies:
                 acts.append(("zombie", a))
             if a not in apps:
@@ -772,6 +826,8 @@ class ControllerRun:
             if not active:
                 if not has_req and a not in pend_apps:
                     acts.append(("stop", a))
+                    if split_stop and any(p is not None for p in ex._qubit_unit_modules[a]):
+                        acts.append(("stopbegin", a))       # the stop is suspended while a physical qubit is being reset
                 for p in ctrl_lib(a):
                     if p in ("keep1", "keepfree") and (has_req or a in pend_apps or len(ex._qubit_unit_modules[a]) < 2):
                         continue
@@ -811,6 +867,13 @@ class ControllerRun:
             elif act[0] == "stop":
                 ev.update(app=act[1])
                 self.stop(act[1])
+            elif act[0] == "stopbegin":
+                ev.update(app=act[1])
+                if self.stop_begin(act[1]) == "finished":
+                    ev["a"] = "stop"           # the handler never yielded: an ordinary stop
+            elif act[0] == "stopstep":
+                ev.update(app=act[1])
+                self.stop_step(act[1])
             elif act[0] == "begin":
                 ev.update(app=act[1], p=act[2])
                 self.begin(act[1], act[2])
@@ -853,7 +916,7 @@ def controller_script(acts, app_ids=(0, 1, 2), um_sizes=(1, 2, 3, 4)):
     run = ControllerRun()
     evs = []
     for a in acts:
-        if tuple(a) not in [tuple(x) for x in run.candidates(app_ids, um_sizes)]:
+        if tuple(a) not in [tuple(x) for x in run.candidates(app_ids, um_sizes, split_stop=True)]:
             continue
         ev = run.apply(tuple(a))
         if ev is None:
@@ -870,7 +933,7 @@ def controller_walk(seed: int, length: int, app_ids=(0, 1), um_sizes=(1, 2)):
     run = ControllerRun()
     evs = []
     for _ in range(length):
-        acts = run.candidates(app_ids, um_sizes)
+        acts = run.candidates(app_ids, um_sizes, split_stop=True)
         # bias towards progress: stepping active subroutines
         rng.shuffle(acts)
         acts.sort(key=lambda a: 0 if a[0] in ("step", "deliver", "retry", "zombie") and rng.random() < 0.6 else 1)
